@@ -68,6 +68,8 @@ def run(ck):
                  "methods", 'docs', 14)
 
     with ck.section('R16.1'):
+        from rules.shared import argument_not_consumed_before_tuple
+        argument_not_consumed_before_tuple(ck, R1, ('block:efilter_tuple',))
         # ------------------------------------------------------------------ R16.1
         from rules.shared import event_send_rules
         event_send_rules(ck, R1, ('source', 'pipeline', 'veto', 'delivery', 'keys'), lambda: _send_shape(ck, prog, R1))
